@@ -306,18 +306,43 @@ func VerifH_C19_FilterCommand() {
 	}
 	inverse := vBool("inverse")
 	version := 1 + vChoose("version2", 2)
-	err := lib.FilterCar(nil, inPath, outPath, sel, inverse, version, false)
+	// state of the destination: absent, an unrelated longer file (must be replaced), or - with
+	// --append - a finalized CARv2 holding one block, which the selected blocks are added to
+	dest := vChoose("destState", 3)
+	appendOut := false
+	var have []vBlk
+	switch dest {
+	case 1:
+		vFSWriteFile(outPath, vBytes("old", 300))
+	case 2:
+		e := vValidBlk("e")
+		vAssume(e.c.Prefix().MhType != 0)
+		for _, b := range blocks {
+			vAssume(vImplies(vBytesEq(b.c.Hash(), e.c.Hash()), vBytesEq(b.data, e.data)))
+		}
+		vFSWriteFile(outPath, vBuildCar([]vBlk{e}))
+		have = []vBlk{e}
+		appendOut = true
+		version = 2
+	}
+	err := lib.FilterCar(nil, inPath, outPath, sel, inverse, version, appendOut)
 	vAssert("filter-ok", err == nil)
 	got, ok := vFSReadFile(outPath)
 	vAssert("filter-output", ok)
-	var want []vBlk
+	want := append([]vBlk{}, have...)
 	for _, b := range blocks {
 		_, in := sel[b.c]
-		if in != inverse {
+		dup := false
+		for _, w := range want {
+			if vBytesEq(w.c.Hash(), b.c.Hash()) {
+				dup = true // appended to an archive that already holds the block
+			}
+		}
+		if in != inverse && !dup {
 			want = append(want, b)
 		}
 	}
-	blks, _, clean := vScanBlocks(got)
+	blks, outRoots, clean := vScanBlocks(got)
 	vAssert("filter-scans-clean", clean)
 	vAssert("filter-keeps-selected-in-order", vSameBlocks(blks, want))
 	rootKept := false
@@ -326,6 +351,12 @@ func VerifH_C19_FilterCommand() {
 			rootKept = true
 		}
 	}
+	if appendOut {
+		vAssert("append-keeps-the-existing-roots", len(outRoots) == 1 && outRoots[0].Equals(have[0].c))
+		rootKept = true
+		vCover("appended", len(want) > 1)
+	}
+	vCover("replaced-existing-file", dest == 1)
 	vAcceptedByInspectAndVerify("filter-", outPath, got, rootKept)
 	vCover("filtered-inverse", len(want) == 1)
 	vCover("filtered-empty", len(want) == 0)
